@@ -24,6 +24,21 @@ FAMILIES_BY_CELL = {
     "hex": ["hex-box", "hex-affine", "hex-jiggled"],
     "wedge": ["wedge-extruded"],
 }
+# initial meshes from the library's own constructors (their numbering
+# patterns - sorted connectivity, init_tensor's orientation, symmetric
+# diagonals - differ from the generated ones); validated by the caller with
+# own geometry before use
+LIB_FAMILIES_BY_CELL = {
+    "line": ["lib-line"],
+    "tri": ["lib-tri-default", "lib-tri-symmetric", "lib-tri-sqsymmetric",
+            "lib-tri-lshaped", "lib-tri-circle", "lib-tri-tensor"],
+    "quad": ["lib-quad-default", "lib-quad-tensor"],
+    "tet": ["lib-tet-default", "lib-tet-tensor", "lib-tet-ball"],
+    "hex": ["lib-hex-default", "lib-hex-tensor"],
+    "wedge": ["lib-wedge-default"],
+}
+for _c, _fs in LIB_FAMILIES_BY_CELL.items():
+    FAMILIES_BY_CELL[_c] = FAMILIES_BY_CELL[_c] + _fs
 FAMILY_CELL = {f: c for c, fs in FAMILIES_BY_CELL.items() for f in fs}
 CLS1 = {"line": "MeshLine1", "tri": "MeshTri1", "quad": "MeshQuad1",
         "tet": "MeshTet1", "hex": "MeshHex1", "wedge": "MeshWedge1"}
@@ -314,6 +329,46 @@ def _wedge(rng, n, **_):
     return P, t
 
 
+def _lib(fam):
+    def build(rng, n, **_):
+        from skfem import mesh as skm
+        ax = lambda k: _axis(rng, max(1, min(k, 3)))
+        if fam == "lib-line":
+            m = skm.MeshLine(_axis(rng, max(1, n)))
+        elif fam == "lib-tri-default":
+            m = skm.MeshTri().refined(min(n, 2) - 1 if n > 1 else 0)
+        elif fam == "lib-tri-symmetric":
+            m = skm.MeshTri.init_symmetric().refined(1 if n > 2 else 0)
+        elif fam == "lib-tri-sqsymmetric":
+            m = skm.MeshTri.init_sqsymmetric()
+        elif fam == "lib-tri-lshaped":
+            m = skm.MeshTri.init_lshaped()
+        elif fam == "lib-tri-circle":
+            m = skm.MeshTri.init_circle(nrefs=1 if n < 3 else 2)
+        elif fam == "lib-tri-tensor":
+            m = skm.MeshTri.init_tensor(ax(n), ax(n))
+        elif fam == "lib-quad-default":
+            m = skm.MeshQuad().refined(1 if n > 1 else 0)
+        elif fam == "lib-quad-tensor":
+            m = skm.MeshQuad.init_tensor(ax(n), ax(n))
+        elif fam == "lib-tet-default":
+            m = skm.MeshTet().refined(1 if n > 1 else 0)
+        elif fam == "lib-tet-tensor":
+            m = skm.MeshTet.init_tensor(ax(min(n, 2)), ax(1), ax(min(n, 2)))
+        elif fam == "lib-tet-ball":
+            m = skm.MeshTet.init_ball(nrefs=0 if n < 2 else 1)
+        elif fam == "lib-hex-default":
+            m = skm.MeshHex().refined(1 if n > 1 else 0)
+        elif fam == "lib-hex-tensor":
+            m = skm.MeshHex.init_tensor(ax(min(n, 2)), ax(min(n, 2)), ax(1))
+        elif fam == "lib-wedge-default":
+            m = skm.MeshWedge1()
+        else:
+            raise ValueError(fam)
+        return np.array(m.p), np.array(m.t)
+    return build
+
+
 _BUILDERS = {
     "line-irregular": _line,
     "tri-tensor": _tri_tensor, "tri-delaunay": _tri_delaunay,
@@ -327,6 +382,9 @@ _BUILDERS = {
     "hex-jiggled": _hex_jiggled,
     "wedge-extruded": _wedge,
 }
+for _fs in LIB_FAMILIES_BY_CELL.values():
+    for _f in _fs:
+        _BUILDERS[_f] = _lib(_f)
 
 # admissible local re-orderings (keep the reference topology)
 _QUAD_ORDERS = [[0, 1, 2, 3], [1, 2, 3, 0], [2, 3, 0, 1], [3, 0, 1, 2]]
